@@ -75,7 +75,8 @@ def binary_search_lightness(
 
             # Track best valid candidate
             if contrast >= target_contrast:
-                if delta_e < best_delta_e:
+                # A candidate that meets the target always supersedes one that does not
+                if best_contrast < target_contrast or delta_e < best_delta_e:
                     best_rgb = candidate_rgb
                     best_delta_e = delta_e
                     best_contrast = contrast
